@@ -808,6 +808,50 @@ def judge_c06_accessors(ctx, cfg, lits):
                       'actual': a, 'shrinkable': False})
     return v
 
+def judge_c06_retry(ctx, cfg):
+    """ONE Deserializer, a refused integer request swallowed, then another integer request on the same Deserializer (the try-u128-then-i128 idiom): whatever
+    the second request yields, an Ok is the EXACT value of the literal (a refusal may or may not have consumed the literal; it never leaves a different number
+    behind, e.g. the literal without its sign).  Evaluated on the implementation against big-integer arithmetic."""
+    rng = ctx.rng
+    lits = []
+    for base in (0, 1, 5, 127, 128, 255, 256, 2**15, 2**16, 2**31, 2**32, 2**63 - 1, 2**63, 2**64 - 1, 2**64, 2**127 - 1, 2**127, 2**128 - 1, 2**128, 10**38, 170141183460469231731687303715884105728):
+        lits += [str(base), '-' + str(base)]
+    for _ in range(200 if ctx.tier == 'quick' else 2000):
+        lits.append(rng.choice(['', '-']) + str(rng.randrange(0, 10 ** rng.randrange(1, 42))))
+    lits = [l for l in dict.fromkeys(lits) if l != '-0']
+    rng_ty = {'l': (-2**63, 2**63 - 1), 'L': (0, 2**64 - 1), 'I': (-2**127, 2**127 - 1), 'U': (0, 2**128 - 1), 'h': (-2**15, 2**15 - 1), 'B': (0, 255)}
+    lines, meta = [], []
+    for l in lits:
+        for a in 'lLIUhB':
+            for b in 'lLIU':
+                for src in ('b', 'r'):
+                    lines.append('dq %s %s %s' % (src, a + b + b, hx(l.encode())))
+                    meta.append((l, a + b + b))
+    outs = ctx.impl(cfg, lines)
+    v = []
+    for (l, t), o in zip(meta, outs):
+        x = int(l)
+        steps = o.split(',')
+        bad = len(steps) != 3
+        seen_ok = False
+        for ty, st in zip(t, steps):
+            if st.startswith('ok:z'):
+                lo, hi = rng_ty[ty]
+                if int(st[4:]) != x or not (lo <= x <= hi) or seen_ok:
+                    bad = True
+                seen_ok = True
+            elif not st.startswith('err:'):
+                bad = True
+        # a request the literal fits is refused only if an earlier step consumed it
+        if not bad and not seen_ok and rng_ty[t[0]][0] <= x <= rng_ty[t[0]][1]:
+            bad = True
+        if bad:
+            v.append({'what': 'integer-after-refused-request', 'cfg': cfg, 'input': hx(l.encode()), 'types': t, 'expected': 'every Ok is exactly %s, at most once' % l, 'actual': o[:200], 'shrinkable': False})
+        elif seen_ok:
+            ctx.distinct_nontrivial += 1
+    ctx.count('retry-after-refusal', len(lines))
+    return v
+
 def run_c06(ctx):
     ctx.rule = ('integer literals: every value within 300 of each integer type bound and (thorough: of each power of two up to 2^128; quick: within 3), all 8-bit and (thorough: all; quick: every 7th) '
                 '16-bit values, random 1-45 digit literals with and without sign, -0, and leading-zero / fraction / exponent / whitespace spellings; each x ten targets i8..u128 x '
@@ -823,6 +867,17 @@ def run_c06(ctx):
         for s in (lits[:2] + extra[:2]):
             ctx.sample({'literal': s, 'cfg': cfg, 'targets': 'i8..u128', 'routes': 'text, key, Value, key in Value'})
         ctx.violations += judge_c06_accessors(ctx, cfg, lits + ['-0'])
+        ctx.violations += judge_c06_retry(ctx, cfg)
+    for cfg in [c for c in getattr(ctx, 'side_cfgs', []) if c == 'ap' and c not in ctx.cfgs]:
+        # arbitrary_precision side configuration: which visit_* an integer literal reaches through deserialize_any (what an untagged enum with a u64 / i64
+        # variant depends on) must be the same on the text route and on the Value routes: visit_u64 / visit_i64 inside [i64::MIN, u64::MAX]
+        from checks import fv
+        ints = []
+        for base in (0, 1, 2**31, 2**32, 2**53, 2**63, 2**64):
+            for dlt in range(-2, 3):
+                ints += [str(base + dlt).encode(), b'-' + str(abs(base + dlt)).encode(), b'[' + str(base + dlt).encode() + b']', b'{"k":' + str(base + dlt).encode() + b'}']
+        ctx.violations += fv.judge_any_probe(ctx, cfg, 400, report_known=False, extra_docs=ints)
+        ctx.violations += judge_c06_retry(ctx, cfg)
 
 def judge_c06_single(ctx, cfg, inputs, aux=None):
     return judge_c06(ctx, cfg, inputs, aux)
@@ -1473,4 +1528,4 @@ TYPED_TB = ['the universal DeserializeSeed / Serialize of harness/src/bin/sjh_ty
             'f32 targets under float_roundtrip (lexical single-precision path) are outside the model: implementation-only checks there',
             'deserialisation through a Value (from_value) is checked directly against big-integer arithmetic, not against a Coq model']
 
-register('C06', cfgs={'quick': ['def'], 'thorough': ['def', 'ap']}, run=run_c06, judge=judge_c06_single, extended=run_c06, trusted_base=TYPED_TB)
+register('C06', cfgs={'quick': ['def'], 'thorough': ['def', 'ap']}, side_cfgs=['ap'], run=run_c06, judge=judge_c06_single, extended=run_c06, trusted_base=TYPED_TB)
